@@ -1,7 +1,7 @@
 (* Main.v — single entry point of the extracted model: one request tree in, one
    response tree out.  The OCaml driver only parses and prints trees. *)
 From Coq Require Import String List.
-From Prov Require Import Str Sexp Tables Nsm Scope Values Record World Jtree Json JsonSpec Provn ProvnSpec XmlSpec IO IODispatch Dot Xml XmlLabel XmlRec XmlRead XmlReadDoc XmlScope Rdf Rdfq RdfVal Dotg DotLabel Interp Alias.
+From Prov Require Import Str Sexp Tables Nsm Scope Values Record World Jtree Json JsonSpec Provn ProvnSpec XmlSpec IO IODispatch Dot Xml XmlLabel XmlRec XmlRead XmlReadDoc XmlScope Rdf Rdfq RdfVal Dotg DotLabel Interp Alias IOLinks.
 Import ListNotations.
 Open Scope string_scope.
 
@@ -328,6 +328,22 @@ Definition run (req : sexp) : sexp :=
            L (map n (sh_shared h))] in
       match px_list px_aop ops with
       | Some l => L (map (fun shs => L (map sx_shape shs)) (atrace aempty l))
+      | None => A "bad-request"
+      end
+  (* the write protocol over files and links: entries (name ("file" content) | ("link" target)), destination name, the
+     document text; answer: the entries afterwards *)
+  | L [A "destlinks"; L entries; A name; A text] =>
+      let px_entry (x : sexp) : option (string * entry) :=
+        match x with
+        | L [A n; L [A "file"; A c]] => Some (n, EFile c)
+        | L [A n; L [A "link"; A t]] => Some (n, ELink t)
+        | _ => None
+        end in
+      match px_list px_entry entries with
+      | Some fs =>
+          let '(fs', ok) := serialize_to_l fs name "<tmp>" [text] NoFault in
+          L [A (if ok then "ok" else "failed");
+             L (map (fun kv => L [A (fst kv); match snd kv with EFile c => L [A "file"; A c] | ELink t => L [A "link"; A t] end]) fs')]
       | None => A "bad-request"
       end
   | L [A "destpath"; A name] =>
